@@ -460,7 +460,7 @@ def main():
     path = sys.argv[1]
     rj = json.load(open(path))
     # optional extra handlers (kept in separate files per family)
-    for extra in ("replay_scalar", "replay_formats", "replay_objects"):
+    for extra in ("replay_scalar", "replay_formats", "replay_objects", "replay_c16"):
         try:
             mod = __import__(extra)
             mod.install(handler, globals())
